@@ -364,7 +364,34 @@ def run(ctx):
     reduction_rule(ctx)
     flag_rule(ctx)
     lazy_rule(ctx)
+    rotation_direction_rule(ctx)
     # the rotated laws (transversely isotropic, orthotropic, anisotropic) are P C P^T with P from Get_Pmat / Apply_Pmat: R10.2, R10.3
     from . import c10
 
     c10.pmat_rules(ctx)
+
+
+def rotation_direction_rule(ctx):
+    """R11.6: the laws are given in the material axes and handed out in the global frame: every Apply_Pmat call of the
+    law module rotates material -> global (P M P^T, toGlobal=True, explicitly or by default). The siblings
+    (_Apply_basis_transformation for transversely isotropic / orthotropic, Anisotropic._Behavior) must agree."""
+    repo = ctx.repo
+    r = ctx.rule("R11.6", "rotation direction: every Apply_Pmat call in the elastic laws is material -> global (toGlobal True, explicit or default)", min_instances=3)
+    mod = repo.module(LAWS)
+    fdef = repo.func("EasyFEA.Models._utils.Apply_Pmat")
+    a = fdef.node.args
+    defaults = dict(zip([x.arg for x in a.args][-len(a.defaults):], a.defaults))
+    dflt = defaults.get("toGlobal")
+    default_true = isinstance(dflt, ast.Constant) and dflt.value is True
+    for f in repo.all_functions():
+        if f.module is not mod:
+            continue
+        for n in ast.walk(f.node):
+            if isinstance(n, ast.Call) and (dotted(n.func) or "").split(".")[-1] == "Apply_Pmat":
+                r.instance(fn=f.qualname)
+                flag = next((k.value for k in n.keywords if k.arg == "toGlobal"), n.args[2] if len(n.args) > 2 else None)
+                ok = (flag is None and default_true) or (isinstance(flag, ast.Constant) and flag.value is True)
+                if ok:
+                    r.ok(f"{f.qualname}: {norm_text(n)[:60]}")
+                else:
+                    r.fail(f.qualname, f"direction:{f.name}", f.file, n.lineno, f.name, f"`{norm_text(n)[:80]}` rotates global -> material (P^T M P): the law is turned by the inverse rotation; aligned axes, isotropic tensors and quarter turns hide it")
